@@ -14,6 +14,26 @@ pub fn run_bundled_checker(problem: &Value, matrices: &[Value], solution: &Value
     let problem_text = serde_json::to_string(problem).unwrap();
     let matrix_texts: Vec<String> = matrices.iter().map(|m| serde_json::to_string(m).unwrap()).collect();
     let solution_text = serde_json::to_string(solution).unwrap();
+    // every other document goes through the entry point of `vrp-cli check` / `vrp-cli solve --check`
+    // (vrp_cli::extensions::check), which builds the checker context itself from the three documents
+    if crate::util::hash_str(&solution_text) % 2 == 0 {
+        // (a problem which the reader refuses with its matrices is no case at all, as on the direct path below)
+        let readers: Vec<BufReader<&[u8]>> = matrix_texts.iter().map(|m| BufReader::new(m.as_bytes())).collect();
+        (BufReader::new(problem_text.as_bytes()), readers).read_pragmatic().map_err(|e| format!("core problem: {e}"))?;
+        let readers: Vec<BufReader<&[u8]>> = matrix_texts.iter().map(|m| BufReader::new(m.as_bytes())).collect();
+        return match vrp_cli::extensions::check::check_pragmatic_solution(
+            BufReader::new(problem_text.as_bytes()),
+            BufReader::new(solution_text.as_bytes()),
+            Some(readers),
+        ) {
+            Ok(()) => Ok(Ok(())),
+            Err(errs) => {
+                let msgs: Vec<String> = errs.iter().map(|e| e.to_string()).collect();
+                // documents of the harness are well formed: a reader which refuses them rejects the solution
+                Ok(Err(msgs))
+            }
+        };
+    }
     let readers: Vec<BufReader<&[u8]>> = matrix_texts.iter().map(|m| BufReader::new(m.as_bytes())).collect();
     let core = (BufReader::new(problem_text.as_bytes()), readers).read_pragmatic().map_err(|e| format!("core problem: {e}"))?;
     let api_problem = deserialize_problem(BufReader::new(problem_text.as_bytes())).map_err(|e| format!("problem: {e}"))?;
